@@ -685,7 +685,12 @@ class Solver:
                 exits.add(("unwind", self._repair(s)._replace(facts=frozenset())))
         elif k == "unreachable":
             pass
-        elif k in ("drop", "assert"):
+        elif k == "drop":
+            cur2 = self._drop_guard(body, tracked, bb, t, cur)
+            add(t["target"], cur2)
+            if isinstance(t["unwind"], int):
+                add(t["unwind"], cur2)
+        elif k == "assert":
             add(t["target"], cur)
             if isinstance(t["unwind"], int):
                 add(t["unwind"], cur)
@@ -696,6 +701,63 @@ class Solver:
         else:
             pass
         return outs
+
+    def _drop_guard(self, body, tracked, bb, t, cur):
+        """Dropping a local whose type has a local Drop impl and which holds the tracked handle in a
+        field (a scope guard such as retain's SetLenOnDrop): the calls its Drop makes on that field
+        happen here, in the current state."""
+        if not t.get("local_drops") or t["pl"]["p"]:
+            return cur
+        g = t["pl"]["l"]
+        ds = body.defs.get(g, [])
+        if len(ds) != 1 or ds[0][1] == "term" or ds[0][2]["k"] != "aggregate":
+            return cur
+        fields = ds[0][2]["fields"]
+        self_fields = [i for i, f in enumerate(fields) if self.canon(body, tracked, body.origin_operand(f)) == "self"]
+        if not self_fields:
+            return cur
+        out = set(cur)
+        for dk in t["local_drops"]:
+            db = self.F.bodies.get(dk)
+            if db is None:
+                continue
+            for cbb, ct in db.calls():
+                key = ct.get("local_key")
+                if not key or key not in self.F.bodies:
+                    continue
+                n = callee_name(ct)
+                for j, a in enumerate(ct["args"]):
+                    e = strip_refs(db.origin_operand(a))
+                    # (*p1).i  — the guard's field holding the handle
+                    while e[0] in ("ref", "rawptr"):
+                        e = strip_refs(e[2])
+                    if e[0] == "deref":
+                        e = strip_refs(e[1])
+                    if e[0] == "field" and e[2] in self_fields and strip_refs(e[1]) in (("deref", ("param", 1)), ("param", 1)):
+                        site = "drop(%s):%s" % (t["ty"].split("<")[0].rsplit("::", 1)[-1], n)
+                        nxt = set()
+                        for s0 in out:
+                            s1 = s0
+                            if n in CONTRACTS:
+                                obn, pred = CONTRACTS[n]
+                                good = pred(s0)
+                                self.ob("R-contract." + obn, body, site, t.get("line", 0), good, how="state kind=%s uniq=%s" % (s0.kind, s0.uniq),
+                                        detail="the guard dropped here calls %s, which requires %s; reachable state kind=%s uniq=%s ref=%s (e.g. an early error return taken before the handle was made modifiable)" % (n, obn, s0.kind, s0.uniq, s0.ref))
+                                if not good:
+                                    s1 = s0._replace(uniq=True, ref="own") if s0.kind != "S" else s0
+                            self.ctx_stack.append(body.path)
+                            self.pclass_stack.append(())
+                            try:
+                                res = self.summary(self.F.bodies[key], ("param", j + 1), s1)
+                            finally:
+                                self.ctx_stack.pop()
+                                self.pclass_stack.pop()
+                            for cls, s2 in res:
+                                if cls == "unwind":
+                                    continue
+                                nxt.add(s1._replace(kind=s2.kind, uniq=s2.uniq, ref=s2.ref, acq=s2.acq, inc=s2.inc, asg=s1.asg or s2.asg, dirty=s1.dirty or s2.dirty))
+                        out = nxt or out
+        return out
 
     def _repair(self, s):
         """after a violation was reported at an exit, hand callers a consistent tuple so the same
